@@ -161,6 +161,14 @@ def run_case(cls, idx, rng, obs):
             real.iter(i); model.iter(i); advanced = True
         elif r < 0.88:
             x = gen_point(rng, dim, conds)
+            for _ in range(20):     # a multiplier stored at a zero-division point is inf: later values are inf-inf / 0*inf noise
+                try:
+                    [make_cond(c)(x) for c in conds]
+                    break
+                except ZeroDivisionError:
+                    x = gen_point(rng, dim, conds)
+            else:
+                continue
             i = rng.choice([None, None, rng.randint(0, 4)])
             ops.append(['store', x, i])
             real.store(x, i); model.store(x, i)
